@@ -30,7 +30,7 @@ LEVEL_TEXT = ("see lean/Ctrmml/Properties/C01.lean: rewrite soundness over Spec/
               "decreases (number of events, number of non-bracket events): a loop fold by C01_fold_pass_decreases, a subroutine extraction by C01_extract_pass_decreases - find_subroutines "
               "replaces at least one of the occurrences find_match counted), C01_analyzeStack_budget (the recursion of analyze_track is bounded by 1 + number of tracks) and "
               "C01_optimize_terminates_partial (the run never ends in OErr.fuel for fuel above (events+1)^2; extra hypotheses: input tracks validate, JUMP/NOTE params are int16_t values, "
-              "initialSubId + number of events < 32767); loop counts (repair of D2, repo 8105fb4: apply_match folds at most max_loop_count = 255 repetitions, the rest stays for the next pass; "
+              "initialSubId + number of events < 32767); loop counts (repair of D2, repo 6f86090: apply_match folds at most max_loop_count = 255 repetitions, the rest stays for the next pass; "
               "the capped fold is the fold without remainder with k = 254, LoopWindow.cap): C01_fold_count_le_255 (every LOOP_END the loop branch inserts has a count in 2..255 and every other "
               "event of the new track is an old event, LOOP_START or LOOP_BREAK), C01_pass_counts / C01_optimize_counts_le_255 (a pass / a whole run keeps every loop count of the song in the "
               "documented domain 0..255); NOT proved: termination without the bound on the number of events (sub_id wrap, C01_optimize_terminates_statement) and that the stack "
